@@ -22,12 +22,8 @@ def one(args):
     if ov is None:
         return prop, 'STALE', []
     rep = check.run_property(prop, 'quick', overlay=ov)
-    known = {e['key'] for e in _load_json(KNOWN_PATH, {}).get('findings', [])
-             if e.get('property') == prop}
-    rev = {e['key'] for e in _load_json(REVIEWED_PATH, {}).get('entries', [])
-           if e.get('property') == prop}
-    hits = [f for rr in rep.rules for f in rr.findings
-            if f.key not in known and f.key not in rev]
+    from pwsa.report import unlisted_findings
+    hits = unlisted_findings(rep)
     return prop, 'ok', [f.text()[:400] for f in hits] + \
         ['ANALYSIS-ERROR ' + m[:300] for m in rep.analysis_errors]
 
